@@ -96,6 +96,29 @@ SetSeqNum(j, so, a, b) ==
         j3 == DelFrom(j2, so.key, "out", nout)
     IN [res |-> "ok", j |-> j3, so |-> [so EXCEPT !.nout = nout, !.nin = nin]]
 
+
+(* ---- one operation applied to [j, objs] (objs = live session objects); shared by the
+        evaluators and by JournalTx ---- *)
+ToSet(s) == { s[i] : i \in DOMAIN s }
+ApplyOp(st, o) ==
+    CASE o.op = "col" ->
+           LET r == CreateOrLoad(st.j, o.t, o.s) IN
+           [res |-> r.res, st |-> [j |-> r.j, objs |-> Append(st.objs, r.res)]]
+      [] o.op = "sessions" -> [res |-> SessionsOf(st.j), st |-> st]
+      [] o.op = "persist" ->
+           LET r == Persist(st.j, st.objs[o.so].key, o.dir, o.seq, o.data) IN
+           [res |-> r.res, st |-> [st EXCEPT !.j = r.j]]
+      [] o.op = "recover" -> [res |-> Recover(st.j, st.objs[o.so].key, o.dir, o.lo, o.hi), st |-> st]
+      [] o.op = "recover1" -> [res |-> Recover1(st.j, st.objs[o.so].key, o.dir, o.seq), st |-> st]
+      [] o.op = "getall" -> [res |-> GetAll(st.j, ToSet(o.keys), o.dir), st |-> st]
+      [] o.op = "setseq" ->
+           LET r == SetSeqNum(st.j, st.objs[o.so], o.a, o.b) IN
+           [res |-> [r |-> "ok", nout |-> r.so.nout, nin |-> r.so.nin],
+            st |-> [j |-> r.j, objs |-> [st.objs EXCEPT ![o.so] = r.so]]]
+St0 == [j |-> EmptyJ, objs |-> <<>>]
+RECURSIVE ApplyAll(_, _, _)
+ApplyAll(ops, i, st) == IF i > Len(ops) THEN st ELSE ApplyAll(ops, i + 1, ApplyOp(st, ops[i]).st)
+
 (* ---- the laws of property C13, stated on the model (checked by TLC in JournalMC) ---- *)
 UniqueRows(j) ==
     \A a, b \in DOMAIN j.rows :
